@@ -875,4 +875,139 @@ theorem setItem_len_existing (cls : Cls) (kvs : List (Str × Val)) (q : Pos) (kc
     (tokenize_elem_path q hp hn (cleanIdx_nat _) tail ht) hfind rfl (by simp) ?_
   exact addStores_len_on_list _ _ c xs tail v t' hP ht hset
 
+/-! ### read-back and frame -/
+
+theorem setAt_dict_root' (cls : Cls) (kvs : List (Str × Val)) (p : Pos) (v t' : Val) (hne : p ≠ [])
+    (h : setAt (.dict cls kvs) p v = some t') : ∃ kvs', t' = .dict cls kvs' := by
+  cases p with
+  | nil => exact absurd rfl hne
+  | cons s rest =>
+    cases hc : child (.dict cls kvs) s with
+    | none =>
+      cases rest with
+      | nil => cases s with
+        | key k => simp [setAt, setChild] at h; exact ⟨_, h.symm⟩
+        | idx i => simp [setAt, setChild] at h
+      | cons s2 r => rw [setAt_cons_cons, hc] at h; simp at h
+    | some c =>
+      rw [setAt_cons _ _ _ _ c hc (Or.inr trivial)] at h
+      cases hs : setAt c rest v with
+      | none => simp [hs] at h
+      | some c' =>
+        simp only [hs, Option.bind] at h
+        cases s with
+        | key k => simp [setChild] at h; exact ⟨_, h.symm⟩
+        | idx i => simp [setChild] at h
+
+theorem getAt_chain : ∀ (ns : List Str) (v : Val), getAt (chain ns v) (ns.map Seg.key) = some v
+  | [], v => rfl
+  | n :: ns, v => by simp [chain, getAt, child, lookup, getAt_chain ns v]
+
+theorem spells_chain : ∀ (ns : List Str) (v : Val), (∀ m ∈ ns, PlainKey m) →
+    Spells ns (chain ns v) (ns.map Seg.key) v
+  | [], v, _ => .nil v
+  | n :: ns, v, h => by
+    simp only [chain, List.map_cons]
+    exact .key (h n (by simp)).keyTok (by simp [lookup]) (spells_chain ns v (fun m hm => h m (by simp [hm])))
+
+/-- item access through a path whose tokens spell a position -/
+theorem getItem_spelled (cls : Cls) (kvs : List (Str × Val)) (xp : Str) (toks : List Str) (p : Pos) (c : Val)
+    (fuel : Nat) (hq : startsWith xp ['?'] = false) (hpc : hasPathChar xp = true) (htok : tokenize xp = toks)
+    (hs : Spells toks (.dict cls kvs) p c) (hne : toks ≠ []) (hf : fuel ≥ 2 * toks.length) :
+    getItem fuel (.dict cls kvs) xp = (.dict cls kvs, .ok c) := by
+  obtain ⟨r, hr, hv, hnf, _⟩ := find_spells (.dict cls kvs) true hs hne fuel [] slash true rfl hf
+  have hfound : r.isFound = true := by simp [Res.isFound, hnf]
+  simp only [getItem, getCore, hq, Bool.false_eq_true, if_false, hpc, if_true, htok]
+  rw [hr]
+  simp [hfound, hv]
+
+/-- **read-back (names).**  After the creation of a chain of names the value reads back through
+the same path. -/
+theorem readback_names (cls : Cls) (kvs : List (Str × Val)) (q : Pos) (n : Str) (ns : List Str) (v t' : Val)
+    (fuel : Nat) (hp : PlainPos q) (hn : PlainKey n) (hns : ∀ m ∈ ns, PlainKey m)
+    (hset : setAt (.dict cls kvs) (q ++ [.key n]) (chain ns v) = some t')
+    (hf : fuel ≥ 2 * (q.length + ns.length + 1)) :
+    getItem fuel t' (slash ++ renderPos (q ++ (n :: ns).map Seg.key)) = (t', .ok v) := by
+  obtain ⟨kvs', rfl⟩ := setAt_dict_root' cls kvs _ _ t' (by simp) hset
+  have hpp : PlainPos (q ++ (n :: ns).map Seg.key) :=
+    hp.append (plainPos_keys (n :: ns) (by intro m hm; simp at hm; rcases hm with rfl | hm; exact hn; exact hns m hm))
+  have hg : getAt (.dict cls kvs') (q ++ (n :: ns).map Seg.key) = some v := by
+    have := getAt_setAt_below _ _ _ (q ++ [Seg.key n]) (ns.map Seg.key) hset
+    rw [getAt_chain] at this
+    simpa using this
+  have hlen := mergedToks_length_le (q ++ (n :: ns).map Seg.key)
+  exact getItem_spelled cls kvs' _ _ _ v fuel (qmark_render _) (hasPathChar_render _) (tokenize_render _ hpp)
+    (spells_merged _ _ _ hpp hg) (mergedToks_ne_nil _ (by simp)) (by simp at hlen ⊢; omega)
+
+theorem keyIdxTok_last {name : Str} (hn : PlainKey name) : KeyIdxTok (name ++ bracket sLast) name sLast (-1) :=
+  keyIdxTok_of hn idxExpr_last (by decide) (by decide) n0eval_last
+
+/-- **read-back (element).**  After `name[new()]…`, `name[0]…`, `name[len]…` the value reads back
+through the path with the index replaced by `last()`. -/
+theorem readback_elem (cls : Cls) (kvs : List (Str × Val)) (q : Pos) (kcls : Cls) (nkvs : List (Str × Val))
+    (name : Str) (c : Cls) (ys : List Val) (tail : List Str) (v t' : Val) (fuel : Nat)
+    (hp : PlainPos q) (hget : getAt (.dict cls kvs) q = some (.dict kcls nkvs)) (hn : PlainKey name)
+    (ht : ∀ x ∈ tail, PlainKey x)
+    (hset : setAt (.dict cls kvs) (q ++ [.key name]) (.list c (ys ++ [chain tail v])) = some t')
+    (hf : fuel ≥ 2 * (q.length + tail.length + 1)) :
+    getItem fuel t'
+      (slash ++ renderPos q ++ slash ++ (name ++ bracket sLast) ++ renderPos (tail.map Seg.key)) = (t', .ok v) := by
+  obtain ⟨kvs', rfl⟩ := setAt_dict_root' cls kvs _ _ t' (by simp) hset
+  -- the node at q after the write
+  have hset' := hset
+  rw [setAt_snoc q _ (.key name) _ _ (.dict kcls (kvSet name (.list c (ys ++ [chain tail v])) nkvs)) hget
+    (by simp [setChild])] at hset'
+  have hgq : getAt (.dict cls kvs') q = some (.dict kcls (kvSet name (.list c (ys ++ [chain tail v])) nkvs)) :=
+    getAt_setAt_same q _ _ _ hset' (fun _ _ => trivial)
+  have hs1 := spells_merged q _ _ hp hgq
+  have hs2 : Spells ((name ++ bracket sLast) :: tail) (.dict kcls (kvSet name (.list c (ys ++ [chain tail v])) nkvs))
+      (.key name :: .idx ys.length :: tail.map Seg.key) v :=
+    .keyIdx (keyIdxTok_last hn) (lookup_kvSet_same _ _ _)
+      (by have := normIdx_last (ys ++ [chain tail v]).length (by simp); simpa using this)
+      (by simp) (spells_chain tail v ht)
+  have hs := hs1.append hs2
+  have hlen := mergedToks_length_le q
+  exact getItem_spelled cls kvs' _ _ _ v fuel (by simp [slash, startsWith, List.append_assoc])
+    (by simp [hasPathChar, slash]) (tokenize_elem_path q hp hn cleanIdx_last tail ht) hs (by simp)
+    (by simp; omega)
+
+theorem getAt_list_snoc (c : Cls) (xs : List Val) (z x : Val) (r : Pos) (hr : r ≠ [])
+    (h : getAt (.list c xs) r = some x) : getAt (.list c (xs ++ [z])) r = some x := by
+  cases r with
+  | nil => exact absurd rfl hr
+  | cons s r' =>
+    cases s with
+    | key k => simp [getAt, child] at h
+    | idx j =>
+      obtain ⟨y, hc, hg⟩ := getAt_cons_some h
+      obtain ⟨_, _, hcls, hy, hlt⟩ := child_idx_some hc
+      cases hcls
+      simp [getAt, child, List.getElem?_append_left hlt, hy, hg]
+
+/-- **frame (append).**  Appending one element to the list at `P` keeps every existing node that
+is not an ancestor of the list (nor the list itself). -/
+theorem frame_append (t t' : Val) (P : Pos) (c : Cls) (xs : List Val) (z x : Val) (p : Pos)
+    (hset : setAt t P (.list c (xs ++ [z])) = some t') (hP : getAt t P = some (.list c xs))
+    (hp : getAt t p = some x) (hnp : ¬ p <+: P) : getAt t' p = some x := by
+  rcases diverge_or_prefix P p with hd | hpre | hpre
+  · rw [getAt_setAt_diverge P p t t' _ hset hd, hp]
+  · exact absurd hpre hnp
+  · obtain ⟨r, rfl⟩ := hpre
+    have hr : r ≠ [] := by rintro rfl; exact hnp (by simp)
+    rw [getAt_setAt_below t t' _ P r hset]
+    rw [getAt_append, hP] at hp
+    exact getAt_list_snoc c xs z x r hr hp
+
+/-- **frame (wrap).**  When `name[new()]` wraps the non-list value at `P` into `[old, z]`, nodes
+outside keep their position and every node inside `old` moves below index 0. -/
+theorem frame_wrap (t t' : Val) (P : Pos) (old z x : Val) (p : Pos)
+    (hset : setAt t P (.list .n0 [old, z]) = some t') (hP : getAt t P = some old)
+    (hp : getAt t p = some x) :
+    (¬ p <+: P → ¬ P <+: p → getAt t' p = some x) ∧ (∀ r, p = P ++ r → getAt t' (P ++ .idx 0 :: r) = some x) := by
+  refine ⟨fun h1 h2 => frame_outside t t' _ x P p hset hp h1 h2, ?_⟩
+  rintro r rfl
+  rw [getAt_setAt_below t t' _ P _ hset]
+  rw [getAt_append, hP] at hp
+  simpa [getAt, child] using hp
+
 end N0.XPath
